@@ -376,6 +376,55 @@ fn history(a: &Args) {
             }
         }
     }
+    // the two widths are separate functions: a call of one width right before a call of the other width on the same
+    // numeric word (forward then inverse, inverse then forward) must not change the latter's result
+    for i in 0..(n / 4) {
+        let x = rng.next_u64();
+        let (ow, oword) = if w == 64 { (32u32, x & 0xffff_ffff) } else { (64u32, x) };
+        let r = catch(|| {
+            // forward hash of the OTHER width, then this width's inverse on the same word
+            let hv = h(ow, oword) & mask;
+            let inv = ih(w, hv);
+            let back = h(w, inv);
+            // inverse of the OTHER width, then this width's forward hash and inverse on the same word
+            let iv = ih(ow, oword) & mask;
+            let fwd = h(w, iv);
+            let back2 = ih(w, fwd);
+            (hv, inv, back, iv, fwd, back2)
+        });
+        acc.n += 1;
+        match r {
+            Ok((hv, inv, back, iv, fwd, back2)) => {
+                if back != hv {
+                    acc.fail_hi += 1;
+                    if acc.kept_hi < KEEP {
+                        acc.kept_hi += 1;
+                        let mut f = fail(w, "inverse_then_hash", hv, Some(inv), Some(back), None);
+                        f["called_just_before"] = json!(format!("other width, hash of {:#x}", oword));
+                        acc.first.push(f);
+                    }
+                }
+                if back2 != iv {
+                    acc.fail_ih += 1;
+                    if acc.kept_ih < KEEP {
+                        acc.kept_ih += 1;
+                        let mut f = fail(w, "hash_then_inverse", iv, Some(fwd), Some(back2), None);
+                        f["called_just_before"] = json!(format!("other width, inverse of {:#x}", oword));
+                        acc.first.push(f);
+                    }
+                }
+            }
+            Err(m) => {
+                acc.fail_hi += 1;
+                acc.panics += 1;
+                if acc.kept_hi < KEEP {
+                    acc.kept_hi += 1;
+                    acc.first.push(fail(w, "inverse_then_hash", oword, None, None, Some(m)));
+                }
+            }
+        }
+        let _ = i;
+    }
     write_json(&a.str("out"), &acc.to_json());
 }
 
